@@ -31,7 +31,13 @@ THEOREMS = ['C10_rot_group', 'C10_rot_steps', 'C10_rot_inverse', 'C10_mir_involu
             'C10_primeq_rotated_state_tendency', 'C10_primeq_humidity_rot', 'C10_implicit_terms_equivariant',
             'C10_implicit_inverse_equivariant', 'C10_example',
             'C10_sw_nodal_equivariant', 'C10_sw_tendency_mirror_equivariant', 'C10_sw_explicit_terms_mirror_equivariant',
-            'C10_sw_tendency_rot_equivariant', 'C10_sw_explicit_terms_rot_equivariant', 'C10_sw_example']
+            'C10_sw_tendency_rot_equivariant', 'C10_sw_explicit_terms_rot_equivariant', 'C10_sw_example',
+            'C10_H_parity_from_recurrence', 'C10_H_p_pairs_from_recurrence', 'C10_legendre_table_flip',
+            'C10_synth_mir_equivariant_from_recurrence', 'C10_analysis_mir_equivariant_from_recurrence',
+            'C10_synth_rot_equivariant_from_recurrence', 'C10_analysis_rot_equivariant_from_recurrence',
+            'C10_primeq_tendency_mirror_equivariant_from_recurrence', 'C10_primeq_mirrored_state_tendency_from_recurrence',
+            'C10_sw_explicit_terms_mirror_equivariant_from_recurrence', 'C10_sw_explicit_terms_rot_equivariant_from_recurrence',
+            'C10_from_recurrence_example']
 LEVEL = 'proof'
 LEVEL_TEXT = ('machine-checked theorems (Coq), for every field and all sizes: the rotation tables form a group acting on '
               'modal arrays (bijective when c^2+s^2=1), the mirror is an involution commuting with rotations; synthesis and '
@@ -54,6 +60,12 @@ LEVEL_TEXT = ('machine-checked theorems (Coq), for every field and all sizes: th
               'spectral operators with their default clip=True) and proved mirror- and rotation-equivariant end to end on modal '
               'states (any number of layers, any densities, both layouts); that model is run against the implementation '
               '(arguments of to_modal recorded, whole output). '
+              'The Legendre-table hypotheses H_parity and H_p_pairs are themselves THEOREMS about the recurrence of '
+              'associated_legendre.evaluate (Model/Legendre.v, arithmetic regenerated from the source) for the table '
+              'basis.p[a] = evaluate(M, L, x)[|m(a)|] of both layouts (Thm/SymmetryLegendre.v), given only that the inputs of the '
+              'recurrence are symmetric (x[J-1-j] = -x[j], sqrt(1-x^2) table symmetric): the ..._from_recurrence corollaries '
+              'restate the synthesis / analysis, primitive-equation and shallow-water equivariance theorems with no hypothesis '
+              'about Legendre values; the implementation basis.p is compared with that recurrence model on every small grid. '
               'The table hypotheses are re-checked numerically on every explored grid; Held-Suarez '
               'explicit terms (no Coq model) and whole steps of the concrete operators are decided by the '
               'equivariance oracles on the implementation (exploration), for every grid-step rotation and the mirror.')
@@ -62,7 +74,10 @@ LEVEL_NOTE = ('theorems are about the Gallina models (Model/Symmetry.v actions, 
               'properties C04 / C03); rotation and mirror equivariance of the assembled explicit primitive-equation tendencies '
               'and of the implicit terms / inverse are proved; the shallow-water explicit terms are modelled (Model/ShallowWater.v, tied to '
               'the code by correspondence of the nodal stage and of the whole output) and proved equivariant; Held-Suarez explicit '
-              'terms are explored (oracles)')
+              'terms are explored (oracles); the ..._from_recurrence theorems assume EXACT symmetry of the latitude nodes: the '
+              'Gauss nodes of the implementation (scipy roots_legendre) are bitwise symmetric, the equiangular nodes '
+              '(np.sin of a linspace) only to rounding (a few ulp), so for equiangular grids the exact statement applies to the '
+              'symmetrised nodes and the numerical H_parity obligation covers the rounding')
 TECHNIQUE = 'Coq proof of equivariance of every building block and of the integrator term language; table obligations; equivariance oracles on the implementation'
 
 TOL = 1e-11
@@ -340,6 +355,57 @@ def generate(ctx):
         yield dyn_case('dry', integrator='imex_rk_sil3', nsteps=2, M=5, L=6, I=16, J=8, impl='fast')
 
 
+def _legendre_from_recurrence(ctx, a, g, fast, p, tag):
+    """Inputs of the Legendre recurrence (Thm/SymmetryLegendre.v H_x_antisym / H_y_sym) on the implementation's own node
+    function, and basis.p against the recurrence model leg_basis_p (Model/Legendre.v through Extract/ExC10.v 40-43)."""
+    sh = dyn.mods()['sh']
+    M, L, J = int(g.longitude_wavenumbers), int(g.total_wavenumbers), int(g.latitude_nodes)
+    spacing = a.get('spacing', 'gauss')
+    x = np.asarray(sh.get_latitude_nodes(J, spacing)[0], dtype=np.float64).copy()      # what basis hands to evaluate(n_m, n_l, x)
+    y = np.sqrt(1 - x * x)                                                               # first statement of _evaluate_rhombus
+    ctx.oracle('the latitude axis of the grid is the node table handed to associated_legendre.evaluate (bitwise)',
+               bool(np.array_equal(np.asarray(g.nodal_axes[1], dtype=np.float64)[:J], x)), None)
+    ex = float(np.abs(x[::-1] + x).max()); ey = float(np.abs(y[::-1] - y).max())
+    if spacing == 'gauss':
+        # measured on the unchanged tree: scipy.special.roots_legendre returns BITWISE antisymmetric nodes (n = 2..1030)
+        ok = bool(np.array_equal(x[::-1], -x) and np.array_equal(y[::-1], y)); how = 'bitwise'
+        detail = {'x_asym': ex, 'y_asym': ey}
+    else:
+        # np.sin(np.linspace(..)) is antisymmetric only to rounding (measured: up to 2 ulp(1) in x on the unchanged tree):
+        # tolerance 4 ulp(1) = 2^-50 in x, propagated through y = sqrt(1 - x^2) (|dy| <= |x| |dx| / y, plus one rounding)
+        pos = y > 0
+        amp = float(np.max(np.abs(x[pos]) / y[pos])) if pos.any() else 0.0
+        tx = 2.0 ** -50; ty = 2.0 ** -50 * (1.0 + amp)
+        ok = bool(ex <= tx and ey <= ty); how = 'to rounding: |x[J-1-j]+x[j]| <= 2^-50, |y[J-1-j]-y[j]| <= 2^-50 (1 + max|x|/y)'
+        detail = {'x_asym': ex, 'tol_x': tx, 'y_asym': ey, 'tol_y': ty}
+    ctx.table_obligation(f'H_nodes_sym_exact (inputs of the Legendre recurrence: x antisymmetric, sqrt(1-x^2) symmetric; {how}) ' + tag, ok, detail)
+    ctx.count('recurrence inputs:' + ('bitwise symmetric' if (ex == 0.0 and ey == 0.0) else 'symmetric to rounding'))
+    R, _, C = p.shape
+    if p.size > 1500 or L > 8:
+        ctx.count('basis.p vs recurrence model: skipped (large table; C01 compares evaluate itself)'); return
+    r = ctx.model.call(40, [M, L], [])
+    if r is None or not int(r[1]):
+        ctx.exact('associated_legendre.evaluate accepts the sizes of the grid (model: legendre_defined)', True, False); return
+    keys = r[2:]
+    vals = [float(np.sqrt(np.float64(float(k)))) for k in keys]
+    arrs = [x, y, keys, vals]
+    pm = float(np.abs(p).max()) + 1e-300
+    mo = ctx.model.call(41, [int(fast), R, M, L, J, C], arrs)
+    ctx.corr('basis.p (rows expanded, zero padding included) = recurrence model leg_basis_p on the same node / sqrt tables',
+             p, mo, scale=pm)
+    res = ctx.model.call(42, [int(fast), R, M, L, J, C], arrs)
+    if ex == 0.0 and ey == 0.0:
+        ctx.exact('parity residual of the recurrence model on bitwise symmetric nodes is exactly zero (theorem H_parity_from_recurrence replayed)',
+                  bool(res is not None and all(v == 0 for v in res)), True)
+    else:
+        ctx.corr('parity residual of the recurrence model on nodes symmetric to rounding vs zero', np.zeros(p.shape), res, scale=pm)
+    nd = ctx.model.call(43, [], [x, y])
+    ctx.corr('y*y = generated radicand 1 - x*x of the node table', y * y, nd[:J], scale=1.0)
+    ctx.corr('node symmetry residuals x[J-1-j] + x[j], y[J-1-j] - y[j]: model definition vs numpy',
+             np.concatenate([x[::-1] + x, y[::-1] - y]), nd[J:], scale=1.0)
+    ctx.count('basis.p vs recurrence model')
+
+
 # ---------------------------------------------------------------------------
 # table obligations
 # ---------------------------------------------------------------------------
@@ -400,6 +466,7 @@ def r_tables(ctx, a):
                  ctx.model.call(7, [int(fast), p.shape[0], J, p.shape[2]], [p.ravel()]), scale=pm)
     ctx.table_obligation('H_p_pairs (cos and sin rows share the Legendre table) ' + tag,
                          bool(np.all(p == p[partner[: p.shape[0]]])), None)
+    _legendre_from_recurrence(ctx, a, g, fast, p, tag)
     # derivative recurrence weights: same for the two rows of a pair (needed by the rotation lemmas of D1/D2)
     wa, wb = g._derivative_recurrence_weights
     nz = wav > 0
